@@ -53,7 +53,23 @@ MetaFiles == {<< <<"#META " \o k \o ": " \o a>> >> \o MetaBuilding : k \in MetaK
                     << <<"#META CTE_RED1: 0.1", "0.2", "0.3", "0.4">> >> \o MetaBuilding,
                     << <<"#META CTE_RED2: { ren: 0", "nren: 1", "3", "co2: 0", "3 }">> >> \o MetaBuilding}
 
+\* refused lines that are long and full of multi-byte characters (the placeholders <L20> ... <L32> are expanded by the
+\* writers to 150 two-byte or 100 three-byte characters behind 0, 1 or 2 ASCII characters): whatever echoes or cuts
+\* the offending text works on bytes
+LongTails == {"<L20>", "<L21>", "<L30>", "<L31>", "<L32>"}
+LongComps == UNION {{<< <<"0", "CONSUMO", "ILU", "ELECTRICIDAD", "abc " \o t>> >>, << <<"0", "CONSUMO", "ILU " \o t, "ELECTRICIDAD", "1">> >>,
+                      << <<"0", "CONSUMO " \o t>> >>, << <<t, "CONSUMO", "ILU", "ELECTRICIDAD", "1">> >>, << <<"DEMANDA", "ACS " \o t, "1">> >>,
+                      << <<"#META" \o t>> >>, << <<"0", "PRODUCCION", "EL_INSITU", "1">>, <<"0", "CONSUMO", "ILU", "ELECTRICIDAD", "1", "2 # " \o t>> >>,
+                      << <<"1", "CONSUMO", "CAL", "GASNATURAL", "1">>, <<"1", "CONSUMO", "ACS", "GASNATURAL", "1">>, <<"1", "AUX", "1 # " \o t>> >>}
+                    : t \in LongTails}
+LongFactors == UNION {{<< <<"ELECTRICIDAD", "RED", "SUMINISTRO", "A", "0.5", "2.0 " \o t>> >>, << <<"ELECTRICIDAD", "RED " \o t, "SUMINISTRO", "A", "0.5", "2.0", "0.4">> >>,
+                        << <<"ELECTRICIDAD", "RED", "SUMINISTRO", "A", "0.5", "x" \o t, "0.4">> >>, << <<"GASNATURAL " \o t, "RED", "SUMINISTRO", "A", "0.5", "2.0", "0.4">> >>,
+                        << <<"GASNATURAL", "INSITU", "SUMINISTRO", "A", "0.5", "2.0", "0.4 # " \o t>> >>}
+                      : t \in LongTails}
+
 Init ==
+  \/ kind = "comps" /\ base = -2 /\ d = Depth /\ file \in LongComps
+  \/ kind = "factors" /\ base = -2 /\ d = Depth /\ file \in LongFactors
   \/ kind = "comps" /\ base = -1 /\ d = Depth /\ file \in MetaFiles
   \/ \E b \in 1..Len(CompBases) : kind = "comps" /\ base = b /\ file = CompBases[b] /\ d = 0
   \/ \E b \in 1..Len(FactorBases) : kind = "factors" /\ base = b /\ file = FactorBases[b] /\ d = 0
